@@ -46,7 +46,7 @@ CHANNEL_POOL = {
     'rp66v1': ['DEPT', 'TIME', 'GR', 'CAL', 'TENS', 'RHOB', 'NPHI', 'TDEP', 'INDEX'],
     'lis': ['DEPT', 'TIME', 'GR  ', 'CALI', 'TENS', 'RHOB', 'NPHI', 'SP  ', 'ILD '],
 }
-CONVERTERS_ENABLED = ['bit']
+CONVERTERS_ENABLED = ['bit', 'rp66v1']
 
 
 def setup():
@@ -96,7 +96,8 @@ def gen_files(rng, converter, names, tier):
         used.add(path)
         gen = {'world': world, 'seed': rng.getrandbits(32)}
         if world in ('bit', 'dlis', 'lis'):
-            gen['names'] = names
+            if world == native:
+                gen['names'] = names
             gen['frames'] = rng.pick([3, 8, 20, 40])
         if world == 'foreign':
             from worlds import foreign
@@ -257,10 +258,12 @@ def _execute(scenario, res, br):
         # two inputs mapping to one output
         owner = {}
         collisions = set()
+        colliding_inputs = set()
         for rel, r in alone.items():
             for p in r['tree']:
                 if p in owner and owner[p] != rel:
                     collisions.add(p)
+                    colliding_inputs.update((owner[p], rel))
                     res.probe('two_inputs_one_output')
                     res.violation('output-collision', f'inputs {owner[p]} and {rel} both write output {p}; the survivor depends on processing order',
                                   same_stem=os.path.splitext(owner[p])[0] == os.path.splitext(rel)[0], **facts0)
@@ -272,6 +275,7 @@ def _execute(scenario, res, br):
                     union[p] = t
     else:
         collisions = set()
+        colliding_inputs = set()
         union = None
     # ---- (3) per-file result equal in A, B, C
     names = sorted(ok_runs)
@@ -287,7 +291,8 @@ def _execute(scenario, res, br):
                 if got != want:
                     diff = sorted(k for k in want if got.get(k) != want.get(k))
                     res.violation('result-differs', f'{name}: result for {rel} is {got}, converting it on its own gives {want}',
-                                  mode=run['mode'], fields=','.join(diff), against='alone', channel_subset=bool(cfg['channels']), **facts0)
+                                  mode=run['mode'], fields=','.join(diff), against='alone', channel_subset=bool(cfg['channels']),
+                                  output_collides=rel in colliding_inputs, **facts0)
     if len(names) >= 2 and ref is None:
         a = ok_runs[names[0]][1]
         for name in names[1:]:
@@ -353,7 +358,7 @@ def candidates(scenario):
                     del nf['faults']
                 yield dict(scenario, files=files[:k] + [nf] + files[k + 1:])
     for k in range(len(runs) - 1, -1, -1):
-        if len(runs) > 1:
+        if len(runs) > 1 and runs[k]['mode'] != 'alone':      # the single-file runs are the reference: never dropped
             yield dict(scenario, runs=runs[:k] + runs[k + 1:])
     for k, run in enumerate(runs):
         if run['mode'] == 'pool':
